@@ -35,6 +35,7 @@ const (
 	kLog
 	kHash
 	kList
+	kErr
 	kUnknown
 )
 
@@ -60,6 +61,8 @@ func (t ty) coq() string {
 		return "(option " + t.sub[0].coq() + ")"
 	case kHash:
 		return "hash"
+	case kErr:
+		return "gerr"
 	case kList:
 		return "(list " + t.sub[0].coq() + ")"
 	case kTuple:
@@ -68,6 +71,10 @@ func (t ty) coq() string {
 			p = append(p, s.coq())
 		}
 		return "(" + strings.Join(p, " * ") + ")"
+	case kUnknown:
+		if strings.Contains(t.name, "->") { // a Section variable with a written-out type (lookup oracle)
+			return t.name
+		}
 	}
 	return "_"
 }
@@ -98,6 +105,10 @@ type target struct {
 	// Regions: translate only the first `for` statement of a function, as a function of the listed free variables
 	// (name, Coq type kind); the result is the tuple of the variables the loop assigns
 	Regions []region
+	// Oracles: method of the context receiver -> Section variable of type `hash -> lookup TreeNode` (a database lookup that finds
+	// a row, finds none, or fails); DropParams: parameters that only carry the database handle
+	Oracles    map[string]string
+	DropParams []string
 }
 
 type region struct {
@@ -116,7 +127,8 @@ var targets = []target{
 	{File: "tree/tree.go", Out: "GenTree.v", Module: "tree/tree.go (CalculateRoot) and tree/appendonlytree.go (hashing loop of AddLeaf)",
 		Hash: true, Structs: []string{"TreeNode"}, StructsFrom: map[string]string{"TreeNode": "tree/types/types.go"},
 		Consts: map[string]string{"types.DefaultHeight": "tree/types/types.go"},
-		Funcs:  []string{"CalculateRoot"}},
+		Ctx: "Tree", Oracles: map[string]string{"getRHTNode": "rht"}, DropParams: []string{"tx"},
+		Funcs: []string{"CalculateRoot", "Tree.GetLeaf", "Tree.getSiblings"}},
 	{File: "tree/appendonlytree.go", Out: "GenAppendOnlyTree.v", Module: "tree/appendonlytree.go (hashing loop of AddLeaf)",
 		Hash: true, Structs: []string{"TreeNode"}, StructsFrom: map[string]string{"TreeNode": "tree/types/types.go"},
 		Consts: map[string]string{"types.DefaultHeight": "tree/types/types.go"},
@@ -173,6 +185,8 @@ func goType(e ast.Expr, structs map[string]*structDef) ty {
 			return ty{k: kFloat}
 		case "bool":
 			return ty{k: kBool}
+		case "error":
+			return ty{k: kErr}
 		}
 		if _, ok := structs[v.Name]; ok {
 			return ty{k: kStruct, name: v.Name}
@@ -185,6 +199,9 @@ func goType(e ast.Expr, structs map[string]*structDef) ty {
 	case *ast.SelectorExpr: // pkg.Type
 		if x, ok := v.X.(*ast.Ident); ok && x.Name == "common" && v.Sel.Name == "Hash" {
 			return ty{k: kHash}
+		}
+		if x, ok := v.X.(*ast.Ident); ok && x.Name == "types" && v.Sel.Name == "Proof" { // [DefaultHeight]common.Hash
+			return ty{k: kList, name: "arr32", sub: []ty{{k: kHash}}}
 		}
 		if _, ok := structs[v.Sel.Name]; ok {
 			return ty{k: kStruct, name: v.Sel.Name}
@@ -203,10 +220,18 @@ type env struct {
 	recv string // receiver identifier
 	rctx bool   // receiver is the context
 	flat map[string]bool
+	// function results (for `nil` as an error value and for bare returns of named results)
+	rets  []ty
+	named []string
+	// innermost loop: the tuple of its carried variables; whether its state carries an early-return value
+	loopTup string
+	inLoop  bool
+	loopRet bool
 }
 
 func (e *env) clone() *env {
-	n := &env{vars: map[string]ty{}, recv: e.recv, rctx: e.rctx, flat: e.flat}
+	n := &env{vars: map[string]ty{}, recv: e.recv, rctx: e.rctx, flat: e.flat, rets: e.rets, named: e.named,
+		loopTup: e.loopTup, inLoop: e.inLoop, loopRet: e.loopRet}
 	for k, v := range e.vars {
 		n.vars[k] = v
 	}
@@ -412,11 +437,25 @@ func zero(t ty) string {
 		return "None"
 	case kHash:
 		return "hash0"
+	case kErr:
+		return "EOK"
+	case kList:
+		if t.name == "arr32" {
+			return "(repeat hash0 32)"
+		}
+		return "[]"
+	case kStruct:
+		if t.name == "TreeNode" {
+			return "(mkTreeNode hash0 hash0 hash0)"
+		}
 	}
 	return "?"
 }
 
 func (t *tr) composite(v *ast.CompositeLit, en *env) (string, ty) {
+	if chain, ok := selChain(v.Type); ok && strings.Join(chain, ".") == "common.Hash" && len(v.Elts) == 0 {
+		return "hash0", ty{k: kHash}
+	}
 	name := ""
 	switch x := v.Type.(type) {
 	case *ast.Ident:
@@ -486,6 +525,27 @@ func (t *tr) call(v *ast.CallExpr, en *env) (string, ty) {
 				t.fail(v, "float64() of a non-integer")
 			}
 			return "(f64_of_N " + c + ")", ty{k: kFloat}
+		}
+	}
+	if chain, ok := selChain(v.Fun); ok {
+		switch strings.Join(chain, ".") {
+		case "errors.Is": // errors.Is(err, db.ErrNotFound)
+			if len(v.Args) == 2 {
+				if tc, ok := selChain(v.Args[1]); ok && tc[len(tc)-1] == "ErrNotFound" {
+					a, _ := t.expr(v.Args[0], en)
+					return "(err_eqb " + a + " ENotFound)", ty{k: kBool}
+				}
+			}
+			t.fail(v, "errors.Is with anything but db.ErrNotFound")
+			return "?", ty{k: kUnknown}
+		case "fmt.Errorf": // wrapping keeps the class of the wrapped error
+			if len(v.Args) >= 2 {
+				if c, ct := t.expr(v.Args[len(v.Args)-1], en); ct.k == kErr {
+					return c, ct
+				}
+			}
+			t.fail(v, "fmt.Errorf that does not wrap an error as its last argument")
+			return "?", ty{k: kUnknown}
 		}
 	}
 	// intrinsics over the abstract hash type
@@ -572,6 +632,14 @@ func (t *tr) call(v *ast.CallExpr, en *env) (string, ty) {
 func (t *tr) binary(v *ast.BinaryExpr, en *env) (string, ty) {
 	a, at := t.expr(v.X, en)
 	b, bt := t.expr(v.Y, en)
+	if at.k == kErr && (v.Op == token.NEQ || v.Op == token.EQL) { // err != nil / err == nil
+		if id, ok := v.Y.(*ast.Ident); ok && id.Name == "nil" {
+			if v.Op == token.NEQ {
+				return "(negb (err_eqb " + a + " EOK))", ty{k: kBool}
+			}
+			return "(err_eqb " + a + " EOK)", ty{k: kBool}
+		}
+	}
 	k := at.k
 	if k == kUnknown {
 		k = bt.k
@@ -685,6 +753,8 @@ func endsWithReturn(list []ast.Stmt) bool {
 	switch v := list[len(list)-1].(type) {
 	case *ast.ReturnStmt:
 		return true
+	case *ast.BranchStmt:
+		return v.Tok == token.CONTINUE
 	case *ast.IfStmt:
 		if v.Else == nil {
 			return false
@@ -761,6 +831,12 @@ func (t *tr) block(list []ast.Stmt, en *env, tail string, ind string) string {
 		return t.block(rest, en, tail, ind)
 	}
 	switch v := s.(type) {
+	case *ast.BranchStmt:
+		if v.Tok == token.CONTINUE && en.inLoop {
+			return t.loopTail(en, "")
+		}
+		t.fail(v, "branch statement %s", v.Tok)
+		return "?"
 	case *ast.DeclStmt: // `var x T`: x is declared, every path assigns it before it is read
 		gd, ok := v.Decl.(*ast.GenDecl)
 		if !ok || gd.Tok != token.VAR {
@@ -774,7 +850,11 @@ func (t *tr) block(list []ast.Stmt, en *env, tail string, ind string) string {
 				return "?"
 			}
 			for _, n := range vs.Names {
-				en.vars[n.Name] = goType(vs.Type, t.structs)
+				vt := goType(vs.Type, t.structs)
+				if vt.k == kOpt && len(vt.sub) == 1 && vt.sub[0].k == kStruct { // a pointer that a lookup fills
+					vt = vt.sub[0]
+				}
+				en.vars[n.Name] = vt
 			}
 		}
 		return t.block(rest, en, tail, ind)
@@ -782,18 +862,56 @@ func (t *tr) block(list []ast.Stmt, en *env, tail string, ind string) string {
 		return t.forLoop(v, rest, en, tail, ind)
 	case *ast.ReturnStmt:
 		var parts []string
-		for _, r := range v.Results {
+		if len(v.Results) == 0 && len(en.named) > 0 { // bare return: the named results
+			parts = append(parts, en.named...)
+		}
+		for i, r := range v.Results {
+			if id, ok := r.(*ast.Ident); ok && id.Name == "nil" && i < len(en.rets) && en.rets[i].k == kErr {
+				parts = append(parts, "EOK")
+				continue
+			}
 			c, _ := t.expr(r, en)
 			parts = append(parts, c)
 		}
+		res := "(" + strings.Join(parts, ", ") + ")"
 		if len(parts) == 1 {
-			return parts[0]
+			res = parts[0]
 		}
-		return "(" + strings.Join(parts, ", ") + ")"
+		if en.inLoop {
+			if !en.loopRet {
+				t.fail(v, "return inside a loop that was not recognised as having early returns")
+			}
+			return t.loopTail(en, res)
+		}
+		return res
 	case *ast.AssignStmt:
 		if len(v.Rhs) != 1 {
 			t.fail(v, "parallel assignment")
 			return "?"
+		}
+		if oc, ok := t.oracleCall(v.Rhs[0], en); ok && len(v.Lhs) == 2 { // x, err = t.lookup(tx, key)
+			x, ok1 := v.Lhs[0].(*ast.Ident)
+			e, ok2 := v.Lhs[1].(*ast.Ident)
+			if !ok1 || !ok2 {
+				t.fail(v, "targets of a lookup")
+				return "?"
+			}
+			branch := func(xval, eval string) string {
+				ben := en.clone()
+				ben.vars[x.Name] = ty{k: kStruct, name: "TreeNode"}
+				ben.vars[e.Name] = ty{k: kErr}
+				return "let " + x.Name + " := " + xval + " in let " + e.Name + " := " + eval + " in\n" + ind + "    " + t.block(rest, ben, tail, ind+"    ")
+			}
+			en.vars[x.Name] = ty{k: kStruct, name: "TreeNode"}
+			en.vars[e.Name] = ty{k: kErr}
+			return "match " + oc + " with\n" + ind + "  | LFound found__ => " + branch("found__", "EOK") + "\n" + ind +
+				"  | LNotFound => " + branch(zero(ty{k: kStruct, name: "TreeNode"}), "ENotFound") + "\n" + ind +
+				"  | LFail => " + branch(zero(ty{k: kStruct, name: "TreeNode"}), "EFail") + "\n" + ind + "  end"
+		}
+		if id, ok := v.Rhs[0].(*ast.Ident); ok && id.Name == "nil" && len(v.Lhs) == 1 { // err = nil
+			if l, ok := v.Lhs[0].(*ast.Ident); ok && en.vars[l.Name].k == kErr {
+				return "let " + l.Name + " := EOK in\n" + ind + t.block(rest, en, tail, ind)
+			}
 		}
 		c, ct := t.expr(v.Rhs[0], en)
 		if len(v.Lhs) == 1 {
@@ -904,14 +1022,92 @@ func (t *tr) block(list []ast.Stmt, en *env, tail string, ind string) string {
 	return "?"
 }
 
-// forLoop translates `for i := T(lo); i < hi; i++ { body }` (lo, hi constants) into a fold over lo .. hi-1 whose state is the tuple
-// of the variables the body assigns and that exist outside the loop.
+// loopTail: the value of one loop iteration that ends here: the carried tuple, plus (for loops with early returns) the returned value
+func (t *tr) loopTail(en *env, ret string) string {
+	if !en.loopRet {
+		return en.loopTup
+	}
+	if ret == "" {
+		return "(" + en.loopTup + ", None)"
+	}
+	return "(" + en.loopTup + ", Some " + ret + ")"
+}
+
+// oracleCall recognises a database lookup through the context receiver (target.Oracles) and returns its Gallina form
+func (t *tr) oracleCall(e ast.Expr, en *env) (string, bool) {
+	ce, ok := e.(*ast.CallExpr)
+	if !ok {
+		return "", false
+	}
+	sel, ok := ce.Fun.(*ast.SelectorExpr)
+	if !ok {
+		return "", false
+	}
+	id, ok := sel.X.(*ast.Ident)
+	if !ok || !en.rctx || id.Name != en.recv {
+		return "", false
+	}
+	name, ok := t.tg.Oracles[sel.Sel.Name]
+	if !ok {
+		return "", false
+	}
+	var args []string
+	for _, a := range ce.Args {
+		if aid, ok := a.(*ast.Ident); ok {
+			dropped := false
+			for _, d := range t.tg.DropParams {
+				if d == aid.Name {
+					dropped = true
+				}
+			}
+			if dropped {
+				continue
+			}
+		}
+		c, _ := t.expr(a, en)
+		args = append(args, c)
+	}
+	if _, known := t.ctxVars[name]; !known {
+		t.ctxVars[name] = ty{k: kUnknown, name: "hash -> lookup TreeNode"}
+		t.ctxOrder = append(t.ctxOrder, name)
+	}
+	return "(" + name + " " + strings.Join(args, " ") + ")", true
+}
+
+func hasReturn(list []ast.Stmt) bool {
+	found := false
+	for _, s := range list {
+		ast.Inspect(s, func(n ast.Node) bool {
+			if _, ok := n.(*ast.ReturnStmt); ok {
+				found = true
+			}
+			return true
+		})
+	}
+	return found
+}
+
+func stripConv(e ast.Expr) ast.Expr {
+	if ce, ok := e.(*ast.CallExpr); ok && len(ce.Args) == 1 {
+		if id, ok := ce.Fun.(*ast.Ident); ok && (id.Name == "int" || id.Name == "uint8" || id.Name == "uint64" || id.Name == "uint32" || id.Name == "uint") {
+			return stripConv(ce.Args[0])
+		}
+	}
+	if pe, ok := e.(*ast.ParenExpr); ok {
+		return stripConv(pe.X)
+	}
+	return e
+}
+
+// forLoop translates `for i := T(lo); i < hi; i++ { body }` and `for i := T(hi); i >= 0; i-- { body }` (lo, hi constants) into a fold
+// over the index values whose state is the tuple of the variables the body assigns and that exist outside the loop; a loop whose
+// body returns carries, in addition, the returned value (None while running): later iterations are skipped once it is set.
 func (t *tr) forLoop(v *ast.ForStmt, rest []ast.Stmt, en *env, tail string, ind string) string {
 	init, ok1 := v.Init.(*ast.AssignStmt)
 	cond, ok2 := v.Cond.(*ast.BinaryExpr)
 	post, ok3 := v.Post.(*ast.IncDecStmt)
-	if !ok1 || !ok2 || !ok3 || init.Tok != token.DEFINE || len(init.Lhs) != 1 || cond.Op != token.LSS || post.Tok != token.INC {
-		t.fail(v, "for statement that is not `for i := lo; i < hi; i++`")
+	if !ok1 || !ok2 || !ok3 || init.Tok != token.DEFINE || len(init.Lhs) != 1 {
+		t.fail(v, "for statement that is not a counted loop")
 		return "?"
 	}
 	iv := init.Lhs[0].(*ast.Ident).Name
@@ -919,8 +1115,23 @@ func (t *tr) forLoop(v *ast.ForStmt, rest []ast.Stmt, en *env, tail string, ind 
 		t.fail(v, "loop condition does not test the loop variable")
 		return "?"
 	}
-	lo, _ := t.expr(init.Rhs[0], en)
-	hi, _ := t.expr(cond.Y, en)
+	var rng string
+	switch {
+	case cond.Op == token.LSS && post.Tok == token.INC:
+		lo, _ := t.expr(init.Rhs[0], en)
+		hi, _ := t.expr(cond.Y, en)
+		rng = "(go_range " + lo + " " + hi + ")"
+	case cond.Op == token.GEQ && post.Tok == token.DEC:
+		if bl, ok := cond.Y.(*ast.BasicLit); !ok || bl.Value != "0" {
+			t.fail(v, "downward loop that does not end at 0")
+			return "?"
+		}
+		hi, _ := t.expr(stripConv(init.Rhs[0]), en)
+		rng = "(go_range_down " + hi + ")"
+	default:
+		t.fail(v, "for statement that is neither `i < hi; i++` nor `i >= 0; i--`")
+		return "?"
+	}
 	acc := map[string]bool{}
 	assigned(v.Body.List, acc)
 	var names []string
@@ -941,12 +1152,19 @@ func (t *tr) forLoop(v *ast.ForStmt, rest []ast.Stmt, en *env, tail string, ind 
 	}
 	ben := en.clone()
 	ben.vars[iv] = ty{k: kInt}
-	body := t.block(v.Body.List, ben, tup, ind+"    ")
-	loop := "fold_left (fun " + pat + " " + iv + " =>\n" + ind + "    " + body + ")\n" + ind + "  (go_range " + lo + " " + hi + ") " + tup
-	if len(rest) == 0 && tail == tup {
-		return loop
+	ben.inLoop, ben.loopTup, ben.loopRet = true, tup, hasReturn(v.Body.List)
+	body := t.block(v.Body.List, ben, t.loopTail(ben, ""), ind+"    ")
+	if !ben.loopRet {
+		loop := "fold_left (fun " + pat + " " + iv + " =>\n" + ind + "    " + body + ")\n" + ind + "  " + rng + " " + tup
+		if len(rest) == 0 && tail == tup {
+			return loop
+		}
+		return "let " + pat + " :=\n" + ind + "  " + loop + " in\n" + ind + t.block(rest, en, tail, ind)
 	}
-	return "let " + pat + " :=\n" + ind + "  " + loop + " in\n" + ind + t.block(rest, en, tail, ind)
+	loop := "fold_left (fun '(" + tup + ", ret__) " + iv + " =>\n" + ind + "    match ret__ with Some _ => (" + tup + ", ret__) | None =>\n" + ind + "    " +
+		body + "\n" + ind + "    end)\n" + ind + "  " + rng + " (" + tup + ", None)"
+	return "let '(" + tup + ", ret__) :=\n" + ind + "  " + loop + " in\n" + ind + "match ret__ with Some r__ => r__ | None =>\n" + ind +
+		t.block(rest, en, tail, ind) + "\n" + ind + "end"
 }
 
 // ---------------------------------------------------------------------------------------------
@@ -1108,6 +1326,15 @@ func (t *tr) run() string {
 		for _, p := range fd.Type.Params.List {
 			pt := goType(p.Type, t.structs)
 			for _, n := range p.Names {
+				isDropped := false
+				for _, d := range t.tg.DropParams {
+					if d == n.Name {
+						isDropped = true
+					}
+				}
+				if isDropped {
+					continue
+				}
 				if pt.k == kUnknown {
 					ff, ok := flatFields[n.Name]
 					if !ok {
@@ -1131,6 +1358,7 @@ func (t *tr) run() string {
 			}
 		}
 		var rts []ty
+		prologue := ""
 		if fd.Type.Results != nil {
 			for _, r := range fd.Type.Results.List {
 				rt := goType(r.Type, t.structs)
@@ -1141,14 +1369,20 @@ func (t *tr) run() string {
 				for i := 0; i < n; i++ {
 					rts = append(rts, rt)
 				}
+				for _, nm := range r.Names { // named results start at their zero values
+					en.named = append(en.named, nm.Name)
+					en.vars[nm.Name] = rt
+					prologue += "let " + nm.Name + " := " + zero(rt) + " in\n  "
+				}
 			}
 		}
+		en.rets = rts
 		rt := ty{k: kTuple, sub: rts}
 		if len(rts) == 1 {
 			rt = rts[0]
 		}
 		name := t.funcName(recvType, fd.Name.Name)
-		body := t.block(fd.Body.List, en, "", "  ")
+		body := prologue + t.block(fd.Body.List, en, "", "  ")
 		t.rets[name] = rt
 		retAnn := ""
 		if !strings.Contains(rt.coq(), "_") {
